@@ -51,6 +51,7 @@ func init() {
 				{Name: "concurrent", Variant: "race", Cases: nc, Run: c11concurrent, CaseTimeout: 120 * time.Second, Required: []string{"concurrent_picks"}},
 				{Name: "concurrent-build", Variant: "race", Cases: nc * 10, Run: c11build, Required: []string{"concurrent_builds"}},
 				{Name: "cowlist-linearizable", Variant: "race", Cases: np, Run: c11cow, Required: []string{"histories_checked"}},
+				{Name: "long-history", Variant: "plain", Cases: 4, Shards: 4, Run: c11longHistory, CaseTimeout: 60 * time.Minute, Required: []string{"long_history_plans"}},
 			}
 		},
 	})
@@ -976,4 +977,100 @@ func c11addressExchange(c *runner.Ctx, i int) {
 	pol.RemoveHost(z.h)
 	pol.AddHost(z.h)
 	drain(pol.Pick(nil), 4*len(s.hosts)+16)
+}
+
+// c11longHistory: one policy instance is asked for more plans than a 32-bit counter can count (a session at 10k
+// queries/s gets there in two and a half days). Every plan still offers a host first, and the full plans taken along
+// the way and at the end offer every node exactly once, nearest tier first.
+func c11longHistory(c *runner.Ctx, i int) {
+	kind := []string{"rr", "dc", "rack", "token+dc"}[i%4]
+	var hosts []*gocql.HostInfo
+	for k := 0; k < 5; k++ {
+		dc, rack := "dc0", "r0"
+		if k >= 3 {
+			dc = "dc1"
+		}
+		if k%2 == 1 {
+			rack = "r1"
+		}
+		hosts = append(hosts, gocql.VerifNewHostInfo(fmt.Sprintf("h%d", k), []byte{10, 0, 0, byte(k + 1)}, 9042, dc, rack, []string{fmt.Sprint(k * 1000)}, true))
+	}
+	var pol gocql.HostSelectionPolicy
+	switch kind {
+	case "rr":
+		pol = gocql.RoundRobinHostPolicy()
+	case "dc":
+		pol = gocql.DCAwareRoundRobinPolicy("dc0")
+	case "rack":
+		pol = gocql.RackAwareRoundRobinPolicy("dc0", "r0")
+	default:
+		pol = gocql.TokenAwareHostPolicy(gocql.DCAwareRoundRobinPolicy("dc0"))
+		gocql.VerifInitTokenAware(pol, "ks", func(string) (*gocql.KeyspaceMetadata, error) {
+			return &gocql.KeyspaceMetadata{Name: "ks", StrategyClass: "org.apache.cassandra.locator.SimpleStrategy", StrategyOptions: map[string]interface{}{"replication_factor": "2"}}, nil
+		})
+		pol.SetPartitioner("org.apache.cassandra.dht.Murmur3Partitioner")
+	}
+	for _, h := range hosts {
+		pol.AddHost(h)
+	}
+	total := uint64(1)<<31 + 1<<17
+	if c.Tier == "thorough" {
+		total = uint64(1)<<32 + 1<<17
+	}
+	full := func(n uint64) bool {
+		var seq []*gocql.HostInfo
+		panicked := ""
+		func() {
+			defer func() {
+				if r := recover(); r != nil {
+					panicked = fmt.Sprint(r)
+				}
+			}()
+			seq, _, _ = drain(pol.Pick(nil), 64)
+		}()
+		if panicked != "" {
+			c.Violation("C11:long-history:panic:"+kind, fmt.Sprintf("plan number %d of one %s policy panicked: %s", n, kind, panicked), map[string]interface{}{"policy": kind, "plan": n})
+			return false
+		}
+		seen := map[string]int{}
+		for _, h := range seq {
+			seen[h.HostID()]++
+		}
+		for _, h := range hosts {
+			if seen[h.HostID()] != 1 {
+				c.Violation("C11:long-history:not-each-once:"+kind, fmt.Sprintf("plan number %d of one %s policy offers %s %d times (5 nodes, all up)", n, kind, h.HostID(), seen[h.HostID()]), map[string]interface{}{"policy": kind, "plan": n, "offered": len(seq)})
+				return false
+			}
+		}
+		return true
+	}
+	for n := uint64(0); n < total; n++ {
+		if n&(1<<16-1) == 0 || n+(1<<16) >= total || (n >= 1<<31-64 && n < 1<<31+64) || (n >= 1<<32-64 && n < 1<<32+64) {
+			if n&(1<<22-1) == 0 {
+				c.Touch()
+			}
+			if !full(n) {
+				return
+			}
+			continue
+		}
+		ok := true
+		func() {
+			defer func() {
+				if r := recover(); r != nil {
+					c.Violation("C11:long-history:panic:"+kind, fmt.Sprintf("plan number %d of one %s policy panicked: %v", n, kind, r), map[string]interface{}{"policy": kind, "plan": n})
+					ok = false
+				}
+			}()
+			if h := pol.Pick(nil)(); h == nil || h.Info() == nil {
+				c.Violation("C11:long-history:no-host:"+kind, fmt.Sprintf("plan number %d of one %s policy offers no host although 5 nodes are up", n, kind), map[string]interface{}{"policy": kind, "plan": n})
+				ok = false
+			}
+		}()
+		if !ok {
+			return
+		}
+	}
+	c.Add("long_history_plans", int64(total))
+	c.Eval(runner.H("c11long", kind), true)
 }
